@@ -71,6 +71,12 @@ fn bad_requests(tier: Tier) -> Vec<(&'static str, Vec<u8>)> {
     for ver in ["HTTP/2.0", "HTTP/3.0"] {
         v.push(("version-above-1.1", format!("GET /v {}\r\nHost: t\r\n\r\n", ver).into_bytes()));
         v.push(("version-above-1.1", format!("POST /v {}\r\nHost: t\r\nContent-Length: 4\r\n\r\nbody", ver).into_bytes()));
+        // the refused request says nothing about the connection: whatever its own
+        // Connection header asks for, the connection remains usable for what follows
+        for conn in ["close", "Upgrade", "keep-alive", "foo, close"] {
+            v.push(("version-above-1.1-with-connection-header", format!("GET /v {}\r\nHost: t\r\nConnection: {}\r\n\r\n", ver, conn).into_bytes()));
+        }
+        v.push(("version-above-1.1-with-connection-header", format!("POST /v {}\r\nHost: t\r\nConnection: close\r\nContent-Length: 4\r\n\r\nbody", ver).into_bytes()));
     }
     v
 }
